@@ -18,6 +18,7 @@ SUITES = {
         "util/zz_verif_drv_test.go": "util_drv_test.go",
         "client/zz_verif_match_test.go": "client_match_test.go",
         "gateway/zz_verif_drv_test.go": "gateway_drv_test.go",
+        "client/zz_verif_client_test.go": "client_drv_test.go",
         "cmd/bisquitt/zz_verif_cli_test.go": "cli_drv_test.go",
         "cmd/bisquitt-pub/zz_verif_cli_test.go": "cli_drv_test.go",
         "cmd/bisquitt-sub/zz_verif_cli_test.go": "cli_drv_test.go",
@@ -31,6 +32,8 @@ SUITES = {
     "gateway": {"pkg": "./gateway/", "run": "TestVerifGateway$", "driver": "gateway", "timeout": "40m",
                 "generator": "gen_gateway.py", "gen": lambda prop: GW_PROFILES.get(prop, GW_PROFILES["*"]),
                 "case_prefix": "case "},
+    "client": {"pkg": "./client/", "run": "TestVerifClient$", "driver": "client", "timeout": "40m",
+               "generator": "gen_client.py", "gen": lambda prop: CL_PROFILES.get(prop, CL_PROFILES["*"]), "case_prefix": "case "},
     "cli": {"pkg": ["./cmd/bisquitt/", "./cmd/bisquitt-pub/", "./cmd/bisquitt-sub/"], "run": "TestVerifCLI$", "driver": "cli",
             "timeout": "30m", "parts": ["sub", "pub", "gw"], "generator": "gen_cli.py",
             "gen": lambda prop: [("sec", 8, 8), ("mix", 25, 300)] if prop == "C31" else [("mix", 30, 400), ("sec", 8, 8)],
@@ -39,6 +42,14 @@ SUITES = {
 
 # (profile, cases in the quick tier, cases in the thorough tier) per property: every property sees
 # the general mix; the profiles that stress its own part of the handler get more cases
+CL_PROFILES = {
+    "*": [("mix", 500, 6000), ("loss", 200, 2000), ("sleep", 150, 1500), ("keepalive", 150, 1500), ("collide", 150, 1500)],
+    "C17": [("mix", 400, 5000), ("loss", 600, 6000), ("collide", 150, 1500)],
+    "C33": [("mix", 300, 3000), ("keepalive", 700, 7000), ("sleep", 200, 2000)],
+    "C06": [("mix", 300, 3000), ("collide", 800, 8000)],
+    "C28": [("mix", 400, 4000), ("loss", 300, 3000), ("sleep", 300, 3000), ("keepalive", 200, 2000)],
+}
+
 GW_PROFILES = {
     "*": [("mix", 500, 5000), ("connect", 200, 2000), ("ids", 150, 1500), ("long", 100, 1000), ("collide", 150, 1500)],
     "C01": [("mix", 500, 5000), ("predef", 300, 3000), ("ids", 200, 2000), ("long", 100, 1000)],
@@ -343,3 +354,63 @@ PROPS.update({
         "explanation": "theorems c31_*; regenerated guard facts; real tools on all runnable flag combinations",
     },
 })
+
+TB_CL = TB_COMMON + [
+    "Bisquitt/Model/Client.lean: hand-written model of the client library (client.go, net.go, the *_transaction.go files): a blocking API call is its synchronous prefix "
+    "plus a waiter that returns when its transaction ends or the goroutine group has ended; one call of handlePacket / one timer callback is one step; tied to the code by "
+    "the client suite (exact equality of timestamped datagrams, per-instant equality of API returns / handler invocations / state samples / end of the group, under testing/synctest)",
+    "the harness' fake datagram connection (client_drv_test.go) and testing/synctest's virtual clock",
+]
+CL_RULE = ("sessions generated by lib/gen_client.py from one seed: the script plays the application (Connect, Register, Subscribe*, Unsubscribe*, Publish* at every QoS, Ping, Sleep, "
+           "Disconnect, Close, each in its own goroutine) and the gateway (acknowledgements delivered, delayed past retries, lost, duplicated, with wrong message IDs; REGISTER / "
+           "PUBLISH QoS 0-2 / PUBREL incl. retransmissions; DISCONNECT; stray, illegal and malformed datagrams) over configurations (user, will, keep-alive, ConnectTimeout, "
+           "RetryDelay, RetryCount, predefined topics); each session runs on the real Client under testing/synctest and on the model; a case is one session; seeded, hence distinct")
+
+
+def cl(prop, level_text, explanation, extra_suites=None, assumptions=None):
+    pre = "DIFF client "
+    return {
+        "level": "proof",
+        "level_text": level_text,
+        "technique": "Lean 4 theorems over the hand-written client model + differential correspondence under testing/synctest + trace monitors",
+        "suites": ["client"] + (extra_suites or []),
+        "relevant": (lambda line: line.startswith(pre)),
+        "rule": CL_RULE,
+        "trusted_base": TB_CL,
+        "assumptions": (assumptions or []) + [
+            "atomic steps: goroutine interleavings inside one handlePacket call / timer callback / API-call prefix are not modelled; where Go's select may take either of two "
+            "ready branches (an exchange ending at the instant the group has ended) the model admits both results",
+            "after the group has been cancelled, whether a transaction created later still retransmits is a scheduling race in the code: repeats are compared modulo that"],
+        "explanation": explanation,
+    }
+
+
+PROPS.update({
+    "C17": cl("C17",
+              "Lean theorems c17_retry_dup (a retransmission = the stored packet with DUP set for PUBLISH / SUBSCRIBE, same message ID and payload), c17_give_up, c17_puback / "
+              "c17_pubrec / c17_pubcomp (which acknowledgement ends which exchange, in order), c17_returns_result (the blocked call returns the exchange's result at that instant), "
+              "c17_pubrel_answered (EVERY PUBREL is answered with a PUBCOMP of the same ID while the connection is open) for ALL states of the client model; whole-session "
+              "statements (nil exactly when acknowledged within the budget; timer-driven datagrams repeat an earlier one with DUP) checked by the monitors ClientSpec.c17*; tie: client suite",
+              "theorems c17_* (client model, all states); monitors c17Retransmissions / c17Pubrel / c17Publish on implementation traces"),
+    "C28": cl("C28",
+              "Lean theorems c28_returns_when_done, c28_returns_when_group_ended (+ c28_interrupted_not_ok: never nil), c28_keeps_waiting (a call stays blocked only while its "
+              "exchange is unfinished and the group runs), c28_retry_counts + c17_give_up (each retry-timer expiry uses up the budget), c28_connect_timeout, "
+              "c28_sleep_pingresp_bound, c28_group_ends for ALL states of the client model; real-time bounds of every call and goroutine exit are measured on the real client "
+              "(virtual clock, goroutine census after the end) by the monitor ClientSpec.c28",
+              "theorems c28_* (client model); monitor c28 (per-call bound from ConnectTimeout / RetryDelay / RetryCount / sleep duration / maxPingrespWait; goroutine census)",
+              assumptions=["the bound for Sleep includes the constant maxPingrespWait = 60 s of the code (regenerated)", "goroutine exit is measured, not proved"]),
+    "C33": cl("C33",
+              "Lean theorems c33_ticker_follows_state, c33_tick, c33_stop_on_leaving_active + c33_no_timer_after_stop (no keep-alive retransmission while asleep / disconnected), "
+              "c33_keepalive_result_private, c33_state_change_never_blocks for ALL states of the client model; whole-session statements (a ping per period while active; none "
+              "while asleep or disconnected) checked by the monitor ClientSpec.c33; tie: client suite (keepalive profile)",
+              "theorems c33_* (client model); monitor c33 on implementation traces; one known finding (user Ping() takes over the keep-alive exchange)"),
+})
+# client halves of properties that speak about both sides
+for _p, _note in (("C06", "client half: theorems c06_client_*; monitor ClientSpec.c06 (collide profile)"),
+                  ("C23", "client half: monitor ClientSpec.c23 on every datagram the real client sends (no theorem for the client half yet)"),
+                  ("C27", "history half: theorems c27_dispatch / c27_no_match_no_callback / c27_unsubscribed; monitor ClientSpec.c27 (current subscriptions from the API results)"),
+                  ("C31", "client half: theorems c31_client_auth_after_connect / c31_client_no_auth_without_user; monitor ClientSpec.c31")):
+    PROPS[_p]["suites"] = PROPS[_p]["suites"] + ["client"]
+    _r = PROPS[_p]["relevant"]
+    PROPS[_p]["relevant"] = (lambda r: (lambda line: r(line) or line.startswith("DIFF client ")))(_r)
+    PROPS[_p]["level_text"] += "; " + _note
